@@ -1,6 +1,6 @@
 """check configuration for C19 (loaded by lib/zvprops.py)"""
 
-PROP = {'gen_tables': [],
+PROP = {'gen_tables': ['TransOpen'],
  'rule': 'ops: zap.Open over counting sink factories registered under fresh scheme names, with every subset of failing positions for k<=4 '
          '(quick) / k<=6 (thorough) paths plus random mixes with unregistered schemes, unparsable URLs, real files in a sandbox (fd counting), '
          'stdout; Config.Build over every error path (6 encoder cases x level present/missing x all ok/fail vectors of <=2 / <=3 output and '
